@@ -233,6 +233,12 @@ class Calls(object):
         st.assume(z3.ForAll(vs, z3.Select(arr, vs[0]) == b.e, patterns=[z3.Select(arr, vs[0])]))
         return SV(arr, mt)
 
+    def spec_constmap(self, ev, node, st):
+        """constmap('KeyType', default) : ghost map with the same value everywhere"""
+        kt = self.fx.parse_type(node.args[0].value)
+        d = ev.ev(node.args[1], st)
+        return SV(z3.K(kt.sort(self.cx), d.e), TMap(kt, d.t))
+
     def spec_b2i(self, ev, node, st):
         (a,) = self._args(ev, node, st)
         return SV(z3.If(ev.truthy(a), 1, 0), TInt())
@@ -354,6 +360,8 @@ class Calls(object):
         # inline: straight-line assignments self.f = <const/ctor>
         from .engine import Executor  # noqa
         saved_env = st.env
+        saved_mod = self.fx.module
+        self.fx.module = mod
         st.env = {"self": SV(r, TRef(cls))}
         try:
             for s in fdef.body:
@@ -368,19 +376,12 @@ class Calls(object):
                     raise Outside("unknown field %s.%s" % (cls, tgt.attr))
                 ev.write_field(st, r, fld[0], fld[1], val)
             # ghost initialisers
-            for g in sess.class_ghost_init(cls):
-                tree = ast.parse(g.strip()).body[0]
-                sp = ev.spec
-                ev.spec = True
-                try:
-                    v = ev.ev(tree.value, st)
-                finally:
-                    ev.spec = sp
-                tgt = tree.targets[0]
-                fld = sess.resolve_field(cls, tgt.attr, cls_ctx=cls)
-                ev.write_field(st, r, fld[0], fld[1], v)
+            gi = sess.class_ghost_init(cls)
+            if gi:
+                self.fx.executor.ghost(gi, st)
         finally:
             st.env = saved_env
+            self.fx.module = saved_mod
         return SV(r, TRef(cls))
 
     # ------------------------------------------------------------------ methods
@@ -552,7 +553,7 @@ class Calls(object):
             decl = c["types"].get(p)
             if decl is None:
                 raise AttachError("callee %s: parameter %s has no type" % (c["name"], p))
-            env[p] = ev.coerce(env[p], tparse(decl), "argument %s of %s" % (p, c["name"]))
+            env[p] = ev.coerce(env[p], tparse(decl), "argument %s of %s" % (p, c["name"]), st)
         callee_fx = sess.spec_ctx(c)
         cev = callee_fx.spec_evaluator()
         cev.bound = dict(env)
